@@ -813,7 +813,8 @@ fn gen_pats(r: &mut Rng, with_la: bool, n: usize, numbering: usize) -> Vec<PatSp
     };
     let mut out = vec![];
     for _ in 0..n {
-        let p = r.pick(PATS).to_string();
+        // three quarters from the pool, one quarter structured random regexes (every operator, nested)
+        let p = if r.below(4) == 0 { let d = 1 + r.below(2); gen_regex(r, d) } else { r.pick(PATS).to_string() };
         let la = if with_la && r.below(2) == 0 { Some((r.below(3) != 0, r.pick(LAS).to_string())) } else { None };
         out.push(PatSpec { p, tt: tts.remove(0), la });
     }
